@@ -577,3 +577,23 @@ package helper
 //@ requires[C01,C15] forall j :: lo <= j && j < hi ==> a[j] == b[j]
 //@ ensures[C01,C15] wminS(a, lo, hi) == wminS(b, lo, hi)
 //@ induction hi
+
+// ---- sign and bound lemmas for prefix sums and the recursive averages -----------------------------------------
+//@ lemma psum_nonneg(a stream, n int)
+//@ requires[C01,C15] forall j :: 0 <= j && j < n ==> a[j] >= 0
+//@ ensures[C01,C15] psum(a, n) >= 0
+//@ induction n
+//@ lemma psum_nonpos(a stream, n int)
+//@ requires[C01,C15] forall j :: 0 <= j && j < n ==> a[j] <= 0
+//@ ensures[C01,C15] psum(a, n) <= 0
+//@ induction n
+//@ lemma rma_nonneg(a stream, P int, k int)
+//@ requires[C01,C15] P >= 1 && k >= 0 && (forall j :: 0 <= j && j < k + P ==> a[j] >= 0)
+//@ ensures[C01,C15] rmaS(a, P, k) >= 0
+//@ induction k
+//@ use psum_nonneg(a, P)
+//@ lemma rma_nonpos(a stream, P int, k int)
+//@ requires[C01,C15] P >= 1 && k >= 0 && (forall j :: 0 <= j && j < k + P ==> a[j] <= 0)
+//@ ensures[C01,C15] rmaS(a, P, k) <= 0
+//@ induction k
+//@ use psum_nonpos(a, P)
